@@ -622,7 +622,7 @@ def t_process_queue(E):
                          detail='the CancelledError raised at the timed read was the task\'s own cancellation, yet the round goes on')
                 E.oblige(Qn + '/timer.re_armed_in_every_iteration_before_loading',
                          z3.BoolVal(st.get('armed_this_iteration') and 'arm' in ev and
-                                    ('gather' not in ev or ev.index('arm') < ev.index('gather'))), props={'C08'},
+                                    ('gather' not in ev or ev.index('arm') < ev.index('gather'))), props={'C08', 'C15'},
                          detail='the quiet period restarts with every arrival; arming after the loads would shift it')
                 E.oblige(Qn + '/round.continues_only_after_a_new_producer_or_a_failed_call',
                          z3.BoolVal('getting:item' in ev or st.get('last_run_ok') is False), props={'C03', 'C08'})
@@ -672,7 +672,7 @@ def _unsupp(m):
 
 TASKS = {
     'buffer._run_func': (t_run_func, {'C03', 'C07', 'C08'}),
-    'buffer._process_queue': (t_process_queue, {'C03', 'C07', 'C08'}),
+    'buffer._process_queue': (t_process_queue, {'C03', 'C07', 'C08', 'C15'}),
 }
 
 
